@@ -150,6 +150,12 @@ inductive Exc where
   | typeError
   | unboundLocalError   -- a `for` target read after a loop that never ran
   | fuel                -- NOT a Python exception: a `while` loop did not end within the fuel the translator gave it
+  -- ValueError subclasses of icalendar (wave 4); `except ValueError` catches them
+  | localTimezoneMissing
+  | componentStartMissing
+  | componentEndMissing
+  | invalidCalendar
+  | incompleteComponent
 deriving DecidableEq, Repr, Inhabited
 
 abbrev Py (α : Type) := Except Exc α
@@ -266,5 +272,25 @@ def pySliceO (s : Str) (a b : Option Int) : Str :=
 def intOfOpt : Option Int → Py Int
   | some z => .ok z
   | none => .error .typeError
+
+/-! ## wave 4: comprehensions over objects -/
+
+/-- `[x for x in xs if p(x)]` where `p` can raise: the elements are tested in order, the first exception ends it -/
+def pyFilterM {α : Type} (p : α → Py Bool) : List α → Py (List α)
+  | [] => .ok []
+  | x :: xs =>
+    match p x with
+    | .error e => .error e
+    | .ok b =>
+      match pyFilterM p xs with
+      | .error e => .error e
+      | .ok r => .ok (if b then x :: r else r)
+
+/-- what `except ValueError:` catches: ValueError and its icalendar subclasses -/
+def valueErrors : List Exc :=
+  [.valueError, .localTimezoneMissing, .componentStartMissing, .componentEndMissing, .invalidCalendar, .incompleteComponent]
+
+/-- `timedelta(weeks=, days=, hours=, minutes=, seconds=)` where a timedelta is the hand model's `Int` of seconds -/
+def tdsOfUnits (w d h m s : Int) : Int := (w * 7 + d) * 86400 + h * 3600 + m * 60 + s
 
 end ICal.PyRT
